@@ -228,7 +228,11 @@ pub fn first<T: AsRef<Path>>(path: T) -> RvResult<String> {
 /// assert_eq!(sys::name("/foo/bar.foo").unwrap(), "bar");
 /// ```
 pub fn name<T: AsRef<Path>>(path: T) -> RvResult<String> {
-    base(trim_ext(path)?)
+    let base = base(&path)?;
+    Ok(match ext(&path) {
+        Ok(ext) => base.trim_suffix(format!(".{}", ext)),
+        Err(_) => base,
+    })
 }
 
 /// Returns true if the `Path` contains the given path or string.
